@@ -208,4 +208,75 @@ theorem exec_originals (cfg : Cfg) (H : Hashes) (ops : List Op) : ∀ (s : State
       subst ha
       simpa [List.append_assoc] using ho'
 
+/-- along every history: a reply produced by the gate records the verdicts the agents gave on that very
+    request, and a non-cached un-blocked reply is always such a reply -/
+theorem exec_gated (cfg : Cfg) (H : Hashes) (ops : List Op) (s : State) :
+    ∀ o ∈ (exec cfg H s ops).2,
+      (∀ ev r, o.out = ⟨.gated ev, some r⟩ →
+        ∃ p z y, o.op = .run p (.ret z) (.ret y) ∧ r = gateResult H cfg.gate p z y) ∧
+      (∀ r, o.out.result = some r → r.cached = false → r.blocked = false → ∃ ev, o.out = ⟨.gated ev, some r⟩) := by
+  have key := exec_forall cfg H (fun _ => True)
+    (fun o => (∀ ev r, o.out = ⟨.gated ev, some r⟩ →
+        ∃ p z y, o.op = .run p (.ret z) (.ret y) ∧ r = gateResult H cfg.gate p z y) ∧
+      (∀ r, o.out.result = some r → r.cached = false → r.blocked = false → ∃ ev, o.out = ⟨.gated ev, some r⟩))
+    ?_ ops s trivial
+  · exact key.2
+  · intro s op _
+    refine ⟨trivial, ?_⟩
+    cases op with
+    | run p zr yr =>
+      simp only [step]
+      rcases run_out cfg H s p zr yr with h | h | ⟨_, e, _, _, h⟩ | ⟨_, h⟩
+      · rw [h]; simp [circuitOpenResult]
+      · rw [h]
+        unfold consultOut
+        cases zr with
+        | exc => simp [errorResult]
+        | ret z =>
+          cases yr with
+          | exc => simp [errorResult]
+          | ret y =>
+            cases hp : p.enc
+            · simp
+            · simp only [↓reduceIte]
+              refine ⟨?_, ?_⟩
+              · intro ev r h'
+                simp only [Out.mk.injEq, Option.some.injEq] at h'
+                exact ⟨p, z, y, rfl, h'.2.symm⟩
+              · intro r hr _ _
+                simp only [Option.some.injEq] at hr
+                subst hr
+                exact ⟨_, rfl⟩
+      · rw [h]
+        refine ⟨by simp, ?_⟩
+        intro r hr hc
+        simp at hr; subst hr; simp at hc
+      · rw [h]; simp
+    | adv d => simp [step]
+    | resetcb => simp [step]
+    | clearcache => simp [step]
+
+/-- along every history a reply with the `cached` flag set is a cache hit -/
+theorem exec_cached_is_hit (cfg : Cfg) (H : Hashes) (ops : List Op) (s : State) :
+    ∀ o ∈ (exec cfg H s ops).2, ∀ r, o.out.result = some r → r.cached = true → o.out.kind = .cacheHit := by
+  have key := exec_forall cfg H (fun _ => True)
+    (fun o => ∀ r, o.out.result = some r → r.cached = true → o.out.kind = .cacheHit) ?_ ops s trivial
+  · exact key.2
+  · intro s op _
+    refine ⟨trivial, ?_⟩
+    cases op with
+    | run p zr yr =>
+      simp only [step]
+      intro r hr hc
+      rcases run_out cfg H s p zr yr with h | h | ⟨_, e, _, _, h⟩ | ⟨_, h⟩
+      · rw [h] at hr; simp [circuitOpenResult] at hr; subst hr; simp at hc
+      · rw [h] at hr
+        have := (consultOut_kind cfg H p zr yr).2.2 r hr
+        rw [this] at hc; cases hc
+      · rw [h]
+      · rw [h] at hr; simp at hr
+    | adv d => intro r hr; simp [step] at hr
+    | resetcb => intro r hr; simp [step] at hr
+    | clearcache => intro r hr; simp [step] at hr
+
 end Operon.Cffl
